@@ -65,19 +65,34 @@ impl IRA for R {
     }
 }
 
+/// An error type that COULD be integer-coded (it implements IntError, lossily: the payload does not survive), so
+/// that a generator which wrongly integer-codes a method after a method-level marker still compiles this crate
+/// and is reported through the entry shape and the lost payload rather than as a build failure.
+#[derive(Debug, PartialEq, Eq, Clone, Copy)]
+#[repr(C)]
+pub struct Ec(pub u32);
+impl cglue::result::IntError for Ec {
+    fn into_int_err(self) -> core::num::NonZeroI32 {
+        core::num::NonZeroI32::new(1).unwrap()
+    }
+    fn from_int_err(_e: core::num::NonZeroI32) -> Self {
+        Ec(0)
+    }
+}
+
 /// method-level marker, droppable success payload
 #[cglue_trait]
 pub trait IRM {
     #[int_result]
     fn irm_pay(&self, fail: bool) -> Result<Pay, ()>;
-    fn irm_cres(&self, fail: bool) -> Result<u32, u32>;
+    fn irm_cres(&self, fail: bool) -> Result<u32, Ec>;
 }
 impl IRM for R {
     fn irm_pay(&self, fail: bool) -> Result<Pay, ()> {
         if fail { Err(()) } else { Ok(Pay::new(self.k as u32)) }
     }
-    fn irm_cres(&self, fail: bool) -> Result<u32, u32> {
-        if fail { Err(1) } else { Ok(2) }
+    fn irm_cres(&self, fail: bool) -> Result<u32, Ec> {
+        if fail { Err(Ec(self.k as u32 | 0x100)) } else { Ok(2) }
     }
 }
 
